@@ -223,6 +223,8 @@ pub enum Tok {
     Exact(String),
     /// a quoted, escaped rendering of this string
     Str(String),
+    /// any numeric token: how 8/16-bit constant literals are spelled is not fixed by the statement (only injectivity is)
+    AnyNumber,
     /// a float literal that reads back to these bits (any NaN for a NaN)
     F32(u32),
     F64(u64),
@@ -232,6 +234,7 @@ pub fn tok_matches(exp: &Tok, got: &str) -> bool {
     match exp {
         Tok::Exact(s) => s == got,
         Tok::Str(s) => unquote(got).as_deref() == Some(s.as_str()),
+        Tok::AnyNumber => got.parse::<f64>().is_ok(),
         Tok::F32(bits) => match got.parse::<f32>() {
             Ok(v) => v.to_bits() == *bits || (v.is_nan() && f32::from_bits(*bits).is_nan()),
             Err(_) => false,
@@ -260,6 +263,10 @@ pub fn expected_tokens(i: &Inst, ctx: &Ctx, global: bool, in_block: bool) -> Vec
     if global && name == "Constant" && i.args.len() == 1 {
         if let Some(ty) = i.rtype.and_then(|t| ctx.render_types.get(&t).copied()) {
             match (&i.args[0], ty) {
+                (Arg::Lit32(_), RTy::Int(w, _)) | (Arg::Lit32(_), RTy::Float(w)) if w < 32 => {
+                    t.push(Tok::AnyNumber);
+                    return t;
+                }
                 (Arg::Lit32(v), RTy::Int(_, true)) => {
                     t.push(Tok::Exact((*v as i32).to_string()));
                     return t;
